@@ -1198,7 +1198,7 @@ PROPS["C19"] = dict(
          "one change outside the closure (a new module, removal of an unimported module, a type / enum / singleton type added to an unrelated module); both sets built by the real pyxis; the observed module's file compared by content hash. "
          "10% of the pairs are *related* changes (sanity: they must be able to alter the file). non-trivial = both accepted and the change is unrelated",
     level_text="Proved in Coq (Properties/C19.v): name lookup consults the registry only at scope-derived paths (so entries elsewhere are invisible to it); known sizes/alignments are stable under registry extension; a module's file is assembled only from its own paths/values/blocks (C14). "
-               "C19_locality_abstract: for any two loops of pyxis's shape, the second over more items, whose attempts agree on the first's items (+ M1), accepted builds give the first's items the same values. The frame lemma instantiating it for two concrete input sets, and the emitter, are not proved (partial); the monitor decides it on the real code by byte comparison of the observed module's file across unrelated changes.",
+               "C19_locality_abstract: for any two loops of pyxis's shape, the second over more items, whose attempts agree on the first's items (+ M1), accepted builds give the first's items the same values; C19_unrelated_modules (+ _externs): the concrete instance for the model -- two inputs, the second with additional modules, both collision_free and clean, decidable no_capture (the additional items are no lookup candidates of the first input): when both are accepted, under any two schedules, every item and every extern value of the first input has the same resolved value. The emitter for the two builds is not proved (partial); the monitor decides the property on the real code by byte comparison of the observed module's file across unrelated changes.",
     level_note="Trusted: Coq kernel; model validated by this run's correspondence on both sides of every pair; closure computed by the generator from the use lines it wrote.",
 )
 
